@@ -476,8 +476,9 @@ def complain_about_duplicate_paths(paths: List[str]):
         if p.exists() and not p.is_file():
             # assumed to be FIFO, /dev/null etc.
             continue
-        # "out.fastq", "./out.fastq" and "dir/../out.fastq" are the same file
-        normalized = os.path.abspath(path) if path != "-" else path
+        # "out.fastq", "./out.fastq", "dir/../out.fastq" and a symbolic link to
+        # out.fastq are the same file
+        normalized = os.path.realpath(path) if path != "-" else path
         if normalized in seen:
             raise CommandLineError(
                 f"Path {path} specified more than once as an output file. "
